@@ -115,6 +115,7 @@ func vFind(samples []*vSample, name, label string) *vSample {
 // counters and group figures; or a failing seqno query; or a closed stream.
 func H_C16_collect() {
 	setMerge(true)
+	mapOrderAll(true) // Go map / swiss-map iteration order is unspecified: both visiting orders of the two vBuckets are explored
 	st := &vStream{}
 	cl := &vClient{high: map[uint16]uint64{}}
 	disc := &vDisc{}
@@ -165,6 +166,7 @@ func H_C16_collect() {
 		samples = append(samples, (<-ch).(*vSample))
 	}
 	var total float64
+	var lags [2]float64
 	for i := range ids {
 		s := vFind(samples, "cbgo_seq_no_current", labels[i])
 		assert(s != nil && s.val == float64(offs[i].SeqNo), "position gauge equals the tracked seqno")
@@ -185,6 +187,7 @@ func H_C16_collect() {
 				lag = float64(h - offs[i].SeqNo)
 			}
 			total += lag
+			lags[i] = lag
 			if h > offs[i].SeqNo {
 				cover("behind")
 			} else {
@@ -207,7 +210,10 @@ func H_C16_collect() {
 		assert(n == 2, "one invalid lag per vBucket")
 	} else {
 		s := vFind(samples, "cbgo_total_lag_current", "")
-		assert(s != nil && s.val == total, "total lag is the sum of the per-vBucket lags")
+		// floating-point addition in either visiting order (the iteration order of the map is unspecified)
+		var zero float64
+		alt := zero + lags[1] + lags[0]
+		assert(s != nil && (s.val == total || s.val == alt), "total lag is the sum of the per-vBucket lags")
 	}
 	s := vFind(samples, "cbgo_active_stream_current", "")
 	assert(s != nil && s.val == float64(st.active), "active-stream gauge")
